@@ -46,6 +46,17 @@ def key(op, impl, M, S):
         if iv == sv and ifr == sfr and ih != sh:
             return "%s-look:%s" % (t[2], typ)          # Parse(nil) returned something that does not look like the value
         return "%s-aliased:%s:depth%s" % (t[2], typ, depth)
+    if t[1] == "own":
+        # own:<what>:<schema type of the root>:<root of the modelled tree>
+        iv, ifr, isw, ih = (impl.split("|") + ["", "", "", ""])[:4]
+        sv, sfr, ssw, sh = ((S or "").split("|") + ["", "", "", ""])[:4]
+        root = how.split(":", 1)[1].split("(")[0].split("{")[0].split("/")[0] if ":" in how else how
+        if iv == sv and ifr == sfr and isw == ssw and ih != sh:
+            return "own-look:%s:%s" % (typ, root)       # verdict / look of a first result differs from the model's
+        what = "result-changed" if "CHANGED" in iv else ("schema-written" if isw != ssw else "aliased")
+        return "own:%s:%s:%s" % (what, typ, root)
+    if impl == "ALIASED":
+        return "reparse-aliased:" + typ
     return "reparse-changed:" + typ
 
 
